@@ -72,7 +72,15 @@ async def apply(target, c):
     """issue one command on a Memory backend or a Cache facade; returns JSON-able result"""
     op = c[0]
     try:
-        if op == "get": return enc(await target.get(c[1], default=DEFAULT))
+        if op == "get":
+            if len(c) > 2:      # the caller passes a default of its own: asked twice with two different defaults, a miss answers each with its default
+                d1, d2 = dec(c[2]), dec(c[3])
+                r1 = await target.get(c[1], default=d1)
+                r2 = await target.get(c[1], default=d2)
+                if type(r1) is type(d1) and r1 == d1 and type(r2) is type(d2) and r2 == d2: return enc(DEFAULT)
+                if type(r1) is type(r2) and r1 == r2: return enc(r1)
+                return "ERR"
+            return enc(await target.get(c[1], default=DEFAULT))
         if op == "get_many": return [enc(x) for x in await target.get_many(*c[1], default=DEFAULT)]
         if op == "exists": return bool(await target.exists(c[1]))
         if op == "set": return bool(await target.set(c[1], dec(c[2]), expire=secs(c[3]), exist=c[4]))
@@ -134,7 +142,9 @@ def run_history(case):
                     steps.append([t, ["sweep"], None, None])
             return await orig_get(key, default=default)
         mem.get = spy_get
-        await asyncio.sleep(TICK)  # commands live on odd ticks, purge passes on multiples of 16
+        # by default commands live on odd ticks and purge passes on multiples of 16; an aligned history starts on a purge
+        # instant, so that commands after an advance of 16 / 32 / 48 / 64 ticks share their instant with a pass (which is atomic)
+        await asyncio.sleep(16 * TICK if case.get("align") else TICK)
         for adv, c in case["events"]:
             if adv:
                 await asyncio.sleep(adv * TICK)
@@ -177,7 +187,7 @@ def gen_history(rng, nkeys, nevents, ttl_weights=True):
         k = rng.choice(keys)
         ttl = rng.choice([0, 0, 2, 4, 8, 16, 16, 24, 32, 48])
         r = rng.random()
-        if r < 0.22: c = ["get", k]
+        if r < 0.22: c = ["get", k] if rng.random() < 0.7 else ["get", k] + [enc(d) for d in rng.sample([1, 5, -3, "x", "hello", 0], 2)]
         elif r < 0.27: c = ["get_many", [rng.choice(keys) for _ in range(rng.randint(1, 4))]]
         elif r < 0.34: c = ["exists", k]
         elif r < 0.56: c = ["set", k, enc(rng.choice(VALUES)), ttl, rng.choice([None, None, True, False])]
